@@ -2,6 +2,7 @@ import Driver.Proto
 import LadimModel.Release.Dates
 import LadimModel.Release.Attr
 import LadimModel.Release.Sample
+import LadimModel.Release.Table
 namespace Driver
 open Ladim
 
@@ -56,7 +57,71 @@ def hSampleAreas : Handler := do
   let tris ← getList getTri
   pure (outList outF (tris.map Sample.triArea))
 
+/-- percent-decoding of names / strings (`%XX`), so that tokens contain no blanks -/
+def pctDecode (s : String) : String :=
+  let rec go (cs : List Char) (acc : List Char) : List Char :=
+    match cs with
+    | '%' :: a :: b :: rest =>
+      match hexVal a, hexVal b with
+      | some x, some y => go rest (Char.ofNat (x * 16 + y) :: acc)
+      | _, _ => go rest acc
+    | c :: rest => go rest (c :: acc)
+    | [] => acc.reverse
+  String.ofList (go s.toList [])
+
+def pctEncode (s : String) : String :=
+  String.join (s.toList.map (fun c =>
+    if c.isAlphanum || c == '-' || c == ':' || c == '.' || c == '_' then c.toString
+    else "%" ++ toHex 2 c.toNat))
+
+def getName : P String := do pure (pctDecode (← next))
+
+def getCell : P (Table.Cell Float) := do
+  let t ← next
+  match t.toList with
+  | 'n' :: rest =>
+    match parseHex (String.ofList rest) with
+    | .ok n => pure (.num (Float.ofBits (UInt64.ofNat n)))
+    | .error e => throw e
+  | 's' :: rest => pure (.str (pctDecode (String.ofList rest)))
+  | _ => pure .nan
+
+def getFrame : P (Table.Frame Float) := getList (do let n ← getName; let cs ← getList getCell; pure (n, cs))
+
+def outCell : Table.Cell Float → String
+  | .num v => "n" ++ outF v
+  | .str s => "s" ++ pctEncode s
+  | .nan => "x"
+
+/-- `table.make ngroups (num date loc depthDefault implicit explicit)* hascols [cols]` -/
+def hTableMake : Handler := do
+  let groups ← getList (do
+    let num ← getN
+    let date ← getList getCell
+    let loc ← getFrame; let dd ← getFrame; let imp ← getFrame; let exp ← getFrame
+    pure (Table.singleRelease date loc dd imp exp, num))
+  let cols ← getOpt (getList getName)
+  match Table.makeTable 0.0 groups cols with
+  | none => pure "none"
+  | some (hdr, rows) =>
+    pure (" ".intercalate ([toString hdr.length] ++ hdr.map pctEncode ++ [toString rows.length] ++
+      rows.map (fun r => " ".intercalate (r.map outCell))))
+
+/-- `table.validate kind …` -/
+def hTableValidate : Handler := do
+  let k ← getN
+  let grp : P Table.RawGroup := do pure ⟨← getList getName⟩
+  let c ← match k with
+    | 0 => do pure (Table.Container.flat (← getList getName))
+    | 1 => do pure (Table.Container.list (← getList grp))
+    | _ => do
+      let gl ← getList getName
+      pure (Table.Container.grouped gl (← getList grp))
+  match Table.validate c with
+  | none => pure "accepted"
+  | some bad => pure (" ".intercalate ("rejected" :: bad.map (fun m => s!"{m.1}:" ++ ",".intercalate m.2)))
+
 def releaseHandlers : List (String × Handler) :=
-  [("dates.range", hDatesRange), ("attr.get", hAttrGet), ("sample.points", hSamplePoints), ("sample.areas", hSampleAreas)]
+  [("dates.range", hDatesRange), ("attr.get", hAttrGet), ("sample.points", hSamplePoints), ("sample.areas", hSampleAreas), ("table.make", hTableMake), ("table.validate", hTableValidate)]
 
 end Driver
